@@ -64,6 +64,13 @@ CHECKS = {
    text="Every ordered sequence of public builder/solver calls up to the length bound is executed on 9 classes x 2 shapes; at every call the byte snapshot of everything reachable from the inputs (mesh, coefficient variables, BCs incl. dirty bits, cached BC terms, prebuilt terms) must be unchanged, the inputs are made read-only so an in-place write raises, the result must be bit-identical to the same call in a fresh world (catches hidden module-level/cached state for all ordered pairs) and must not alias mesh storage; reused terms across solves equal rebuilt terms. States (sequence prefixes) and transitions (calls) are reported.",
    note="Sequences longer than the bound and argument values outside the fixed generic inputs are not explored; sharing a BC object with a constructor argument is by design and not reported.",
    ref="DESIGN.md 4/C15"),
+
+ "C14": dict(
+   engine="C-histbfs",
+   technique="complete enumeration of operator x operand-kind x class x BC set-up and of all expression trees up to depth 2 (thorough 3) over that alphabet, executed on the real objects with frozen operands, numpy reference on interiors and cross-modification probes",
+   text="Every binary operator (+ - * / ** > >= < <= & |) in every operand arrangement (variable-variable, variable-scalar, scalar-variable, variable-ndarray), neg/abs, funceval/celleval/faceeval with 1..8 arguments and copy() are executed for CellVariables on 9 classes x 3 BC set-ups and FaceVariables on 9 classes, and all expression trees of the depth bound are enumerated; each result is compared with numpy on the interiors, operands must be byte-identical (they are read-only during the call), results must share no memory with operands, modifications must not propagate in either direction, and the result must carry the left-most variable operand's BCs with a consistent ghost layer. Exhaustive over the alphabet.",
+   note="ndarray operands on the right only; user functions passed to *eval return new arrays; tree depth bounded (2 quick / 3 thorough).",
+   ref="DESIGN.md 4/C14"),
 }
 NOT_YET = {}
 
